@@ -58,6 +58,7 @@ def run(chk, replay=None):
             if "rows" not in ep: chk.feat("init_record-unavailable"); continue
             nrows = 0
             for n in names:
+                if n not in ep["rows"]: continue      # pruned from the compiled graph: never runs, no record
                 a = arec["rows"][n]; c = ep["rows"][n]
                 for k in range(len(c["seq"])):
                     sq = c["seq"][k]
